@@ -87,6 +87,12 @@ func vSuite() (auth, integ int) {
 	if vParam("suites", 3) == 1 {
 		return 1, 1
 	}
+	if vParam("suites", 3) == 5 {
+		// the three like-with-like pairings plus two mixed ones (keys longer / shorter than
+		// the integrity hash's natural key size)
+		c := vChoice(5)
+		return []int{1, 2, 3, 1, 3}[c], []int{1, 2, 4, 2, 1}[c]
+	}
 	c := vChoice(3)
 	return 1 + c, vWireInteg(c)
 }
